@@ -87,7 +87,7 @@ type xCase struct {
 	CtxMs   int    `json:"ctxMs"`   // context deadline (0 = none)
 	NoLocal bool   `json:"noLocal"` // DoNotCreateLocalCancellationContext
 	Resp    xResp  `json:"resp"`
-	Outcome string `json:"outcome"` // ok | rpcerr | err
+	Outcome string `json:"outcome"` // ok | rpcerr | err | nohandler | deadline
 	Code    int32  `json:"code"`
 	Desc    string `json:"desc"`
 }
@@ -273,6 +273,10 @@ func opExtras(q request) map[string]any {
 				return &rpc.Error{Code: c.Code, Description: c.Desc}
 			case "err":
 				return plainErr(c.Desc)
+			case "nohandler":
+				return rpc.ErrNoHandler
+			case "deadline":
+				return context.DeadlineExceeded
 			}
 			hctx.Response = append(hctx.Response, makeResp(uid)...)
 			return nil
